@@ -46,7 +46,8 @@ func vpoolGetWriter(w *writer) {
 		m |= 1
 	}
 	if w.writerState != nil {
-		m |= vstateMask(w.writerState) << 4
+		// releaseWriter (4) stays set on the state of a pooled writer by design: acquireWriter sets it on every use
+		m |= (vstateMask(w.writerState) &^ 4) << 4
 	}
 	vpool.Emit("writer.writer", unsafe.Pointer(w), false, m)
 }
